@@ -94,6 +94,40 @@ def trailing_comment_texts():
 
 
 
+# Comments at the end of a statement's line (a layout the printer moves onto lines of their own): two statements at the top
+# level and in a module body, each with or without a comment before it and with or without one after it on its line. What the
+# printer makes of them has its comments on lines of their own between statements, so that text must be a fixed point
+# (a sixth-round remark about the unchanged tree).
+def same_line_comment_texts():
+    for ctxn, (pre, post, ind) in (("top-level", ("", "", "")), ("module-body", ("let m = module {} => {\n", "};\n", "    "))):
+        for b1, t1, b2, t2 in itertools.product([0, 1], repeat=4):
+            s = pre
+            if b1:
+                s += ind + "// before first\n"
+            s += ind + "let a = 1;" + (" // after first" if t1 else "") + "\n"
+            if b2:
+                s += ind + "// before second\n"
+            s += ind + "let b = 2;" + (" // after second" if t2 else "") + "\n"
+            yield ("same-line-comments:" + ctxn, s + post)
+
+
+def own_line_in_bodies(text):
+    """like own_line_between_statements, and the line that opens a module body counts as the end of a statement"""
+    prev_ok = True
+    for ln in text.split("\n"):
+        st = ln.strip()
+        if st.startswith("//"):
+            if not prev_ok:
+                return False
+            continue
+        if "//" in st and reflex.comments(ln):
+            return False
+        if st == "":
+            continue
+        prev_ok = st.endswith(";") or st.endswith("=> {")
+    return True
+
+
 def comments_trimmed(text):
     return [c.strip() for c in reflex.comments(text)]
 
@@ -117,7 +151,7 @@ def own_line_between_statements(text):
     return True
 
 
-def check_text(srv, s, want_fix=None):
+def check_text(srv, s, want_fix=None, fix_on_output=False):
     """-> (outcome class, violation detail or None)"""
     r = srv.req({"op": "fmt", "src": s, "ast": True})
     if "panic" in r or "abort" in r or "hang" in r:
@@ -136,7 +170,7 @@ def check_text(srv, s, want_fix=None):
     cs, ct = comments_trimmed(s), comments_trimmed(t)
     if cs != ct:
         return "COMMENTS-CHANGED", ("comments-changed", {"formatted": t, "before": cs, "after": ct})
-    if want_fix if want_fix is not None else own_line_between_statements(s):
+    if want_fix if want_fix is not None else (own_line_between_statements(s) or (fix_on_output and own_line_in_bodies(t))):
         r2 = srv.req({"op": "fmt", "src": t})
         t2 = r2.get("ok", {}).get("utf8") if "ok" in r2 else None
         if t2 != t:
@@ -150,7 +184,7 @@ def work_texts(chunk):
     hist = {}
     viol = []
     for kind, s in chunk:
-        oc, v = check_text(srv, s)
+        oc, v = check_text(srv, s, fix_on_output=kind.startswith("same-line-comments"))
         k = "%s:%s" % (kind, oc)
         hist[k] = hist.get(k, 0) + 1
         if v is not None:
@@ -254,6 +288,7 @@ def run(ctx):
         absorb(part)
     texts = [("literal", s) for s in LITERALS] + [("file", s) for _, s in c04.repo_sources(250000)]
     texts += [("trailing-comments", s) for s in sorted(set(trailing_comment_texts()))]
+    texts += list(same_line_comment_texts())
     # whole files with own-line comments inserted between statements
     for part in core.pmap(work_texts, texts, chunk=8):
         absorb(part)
@@ -274,6 +309,8 @@ def run(ctx):
 
 
 def make_sig(kind, s, cls, detail):
+    if kind.startswith("same-line-comments"):
+        return "%s:%s" % (cls, kind)
     if kind.startswith("layout"):
         # which canonical form and which separator kind at which token
         canon = " ".join(t[1] if t[0] != "QUOTED" else '"%s"' % t[1] for t in reflex.lex(s)[:-1])
@@ -382,7 +419,7 @@ def replay(case):
         if case["kind"] in ("cli", "cli-routes"):
             part = cli_paths(case["src"].split("\n//----\n") if case["kind"] == "cli-routes" else [case["src"]])
             return not part["viol"], {"violations": part["viol"]}
-        oc, v = check_text(srv, case["src"])
+        oc, v = check_text(srv, case["src"], fix_on_output=str(case.get("kind", "")).startswith("same-line-comments"))
         return v is None, {"outcome": oc, "detail": v}
     finally:
         srv.close()
